@@ -10,7 +10,9 @@ package dispatch
 
 import (
 	"bytes"
+	"encoding/binary"
 	"fmt"
+	"io"
 	"strconv"
 	"strings"
 	"sync"
@@ -278,6 +280,69 @@ func (r *c14Run) do(op []string) bool {
 		}
 		r.peers[name], r.msgs[name] = p, m
 		r.tr.Op(op[1:], "ok")
+	case "addpeer_wire":
+		// op addpeer_wire <name> <hex of the serialized bitfield>: the bitfield is decoded by the real decoder
+		// (bitset.UnmarshalBinary, as the handshake does), which does not clear the bits of the last word
+		// beyond the declared length
+		if len(op) != 4 {
+			return false
+		}
+		name := op[2]
+		raw, err := verifh.Unhex(op[3])
+		if err != nil || len(raw) < 8 || len(raw) > 8+64 || !strings.HasPrefix(name, "p") {
+			return false
+		}
+		if n := binary.BigEndian.Uint64(raw); n > 8*uint64(len(raw)-8) {
+			return false // the handshake rejects these before decoding
+		}
+		b := bitset.New(0)
+		if err := b.UnmarshalBinary(raw); err != nil {
+			r.tr.Op(op[1:], "undecodable")
+			break
+		}
+		id, err := core.HashedPeerID("verif-" + name)
+		if err != nil {
+			panic(err)
+		}
+		m := &c14Msgs{recv: make(chan *conn.Message)}
+		var p *peer
+		var aerr error
+		if pm := verifh.Protect(func() { p, aerr = r.d.addPeer(id, false, b, m) }); pm != "" {
+			r.tr.Op(op[1:], "panic")
+			r.tr.PropFail("panic", "addpeer_wire", verifh.Str(pm))
+			r.stop = true
+			return false
+		}
+		if aerr != nil {
+			r.tr.Op(op[1:], "err")
+			break
+		}
+		if _, dup := r.peers[name]; !dup {
+			r.order = append(r.order, name)
+		}
+		r.peers[name], r.msgs[name] = p, m
+		r.tr.Op(op[1:], "ok")
+	case "close":
+		// op close <peer>: the connection of the peer ended; the feed loop calls removePeer
+		p, ok := r.peers[op[2]]
+		if !ok || len(op) != 3 {
+			return false
+		}
+		if pm := verifh.Protect(func() { r.d.removePeer(p) }); pm != "" {
+			r.tr.Op(op[1:], "panic")
+			r.tr.PropFail("panic", "removePeer", verifh.Str(pm))
+			r.stop = true
+			return false
+		}
+		delete(r.peers, op[2])
+		delete(r.msgs, op[2])
+		for i, n := range r.order {
+			if n == op[2] {
+				r.order = append(r.order[:i:i], r.order[i+1:]...)
+				break
+			}
+		}
+		r.tr.Op(op[1:], "ok")
 	case "msg":
 		// op msg <peer> <type> <fields> [data]
 		if len(op) < 5 {
@@ -389,8 +454,15 @@ func (r *c14Run) do(op []string) bool {
 		for _, s := range m.drain() {
 			switch s.Message.Type {
 			case p2p.Message_PIECE_PAYLOAD:
-				sent = fmt.Sprintf("payload:%d:%d", s.Message.PiecePayload.Index, s.Message.PiecePayload.Length)
+				// what the connection would put on the wire: the bytes of the reader
+				data, rerr := io.ReadAll(s.Payload)
 				s.Payload.Close()
+				idx := int(s.Message.PiecePayload.Index)
+				sent = fmt.Sprintf("payload:%d:%d", idx, len(data))
+				if rerr != nil || !bytes.Equal(data, r.blob.piece(idx)) || idx < 0 || idx >= r.np ||
+					int(s.Message.PiecePayload.Length) != len(data) {
+					r.tr.PropFail("read-outside-piece", fmt.Sprintf("piece=%d", idx), fmt.Sprintf("got=%d", len(data)), verifh.Hex(data))
+				}
 			case p2p.Message_ERROR:
 				sent = fmt.Sprintf("error:%d", s.Message.Error.Index)
 			}
@@ -403,13 +475,38 @@ func (r *c14Run) do(op []string) bool {
 		return false
 	}
 	r.status()
+	// every complete piece holds exactly the blob's bytes (a payload written outside its piece, or into
+	// another piece, shows here)
+	tb := r.d.torrent.Bitfield()
+	for i := 0; i < r.np; i++ {
+		if !tb.Test(uint(i)) {
+			continue
+		}
+		pr, err := r.d.torrent.Torrent.GetPieceReader(i)
+		if err != nil {
+			r.tr.PropFail("piece-unreadable", strconv.Itoa(i))
+			continue
+		}
+		data, _ := io.ReadAll(pr)
+		pr.Close()
+		if !bytes.Equal(data, r.blob.piece(i)) {
+			r.tr.PropFail("write-outside-piece", fmt.Sprintf("piece=%d", i), verifh.Hex(data))
+		}
+	}
 	// property predicates on the state the implementation is in now
 	if n := int(r.d.torrent.Bitfield().Len()); n != r.np {
 		r.tr.PropFail("torrent-bitfield-resized", strconv.Itoa(n))
 	}
 	for _, name := range r.order {
-		if n := int(r.peers[name].bitfield.Len()); n > r.np {
+		bf := r.peers[name].bitfield
+		if n := int(bf.Len()); n > r.np {
 			r.tr.PropFail("peer-bitfield-beyond-torrent", name, strconv.Itoa(n))
+		}
+		for _, i := range bf.GetAllSet() {
+			if i >= bf.Len() {
+				r.tr.PropFail("peer-bit-beyond-length", name, fmt.Sprintf("bit=%d", i), fmt.Sprintf("len=%d", bf.Len()))
+				break
+			}
 		}
 	}
 	return true
@@ -527,9 +624,27 @@ func TestVerif_C14Dispatch(t *testing.T) {
 				op = append(op, "good")
 			}
 			ops := [][]string{{"op", "addpeer", "p0", strconv.Itoa(np), "0"}, {"op", "addpeer", "p1", strconv.Itoa(np), "-"}, op,
-				{"op", "msg", "p1", "request", fmt.Sprintf("0:0:%d", c14PieceLen)}}
+				{"op", "msg", "p1", "request", fmt.Sprintf("0:0:%d", c14PieceLen)}, {"op", "close", "p0"}, {"op", "close", "p1"}}
 			c14Exec(tr, verifh.Case{Cfg: cfg, Ops: ops})
 			tr.Count("single_message_cases", 1)
+		}
+		// handshake bitfields as they come off the wire: declared length l, one 64-bit word with a pattern
+		for _, l := range []int{0, 1, np - 1, np, np + 1, 63, 64} {
+			if l < 0 {
+				continue
+			}
+			for _, word := range []uint64{0, 1, 1 << uint(np-1), 1 << uint(np), 0xffffffffffffffff, 1 << 40, 1 << 63, 0x5555555555555555} {
+				raw := make([]byte, 16)
+				binary.BigEndian.PutUint64(raw, uint64(l))
+				binary.BigEndian.PutUint64(raw[8:], word)
+				if l == 0 {
+					raw = raw[:8]
+				}
+				ops := [][]string{{"op", "addpeer_wire", "p0", verifh.Hex(raw)}, {"op", "addpeer", "p1", strconv.Itoa(np), "-"},
+					{"op", "msg", "p1", "request", fmt.Sprintf("0:0:%d", c14PieceLen)}, {"op", "msg", "p0", "complete", "-"}}
+				c14Exec(tr, verifh.Case{Cfg: cfg, Ops: ops})
+				tr.Count("wire_bitfield_cases", 1)
+			}
 		}
 		// handshake bitfields of every length around the torrent's
 		for _, l := range []int{0, 1, np - 1, np, np + 1, 40, 64, 65, 1000} {
@@ -598,13 +713,15 @@ func TestVerif_C14Dispatch(t *testing.T) {
 				o = []string{"op", "msg", p, rnd.Pick("announce", "request", "error", "cancel", "bitfield"), "nil"}
 			case x < 94:
 				o = []string{"op", "msg", p, "payload", "nil", "good"}
-			case x < 97:
+			case x < 96:
 				o = []string{"op", "msg", p, "type", strconv.Itoa(int(int32(rnd.Uint64())))}
-			default:
+			case x < 99:
 				o = []string{"op", "addpeer", rnd.Pick("p1", "p2"), strconv.Itoa(rnd.Intn(np + 3)), "-"}
+			default:
+				o = []string{"op", "close", p, "-"}[:3]
 			}
 			ops = append(ops, o)
-			tr.Count("random_"+o[1]+"_"+o[3], 1)
+			tr.Count("random_"+o[1], 1)
 		}
 		if n < 2 {
 			tr.Sample(fmt.Sprint(cfg, ops))
